@@ -11,8 +11,9 @@ EXTRA = {"C03": ["C04", "C19"], "C04": ["C03", "C19"], "C19": ["C03", "C04"], "C
 REPO = os.environ.get("VERIF_REPO", "/repo")   # a scratch worktree may be used instead of /repo (then the checks run against it too)
 def main():
     only = sys.argv[1:]
-    lock = open("/tmp/verif-repo.lock" if REPO == "/repo" else "/tmp/verif-repo-alt.lock", "w"); fcntl.flock(lock, fcntl.LOCK_EX)
-    rp = os.path.join(BASE, "results.json")
+    lock = open("/tmp/verif-repo.lock" if REPO == "/repo" else "/tmp/verif-repo-alt-" + REPO.strip("/").replace("/", "_") + ".lock", "w"); fcntl.flock(lock, fcntl.LOCK_EX)
+    # VERIF_RESULTS: write to another file (parallel streams on different checkouts; merge with tools/merge_results.py)
+    rp = os.environ.get("VERIF_RESULTS") or os.path.join(BASE, "results.json")
     results = json.load(open(rp)) if os.path.exists(rp) else {}
     claimed = {c["property_id"] for c in json.load(open(os.path.join(VERIF, "MANIFEST.json")))["checks"]}
     for d in sorted(os.listdir(BASE)):
